@@ -108,7 +108,11 @@ type Scenario struct {
 	MaxExec  int64 // optional cap per shard
 	// free pass: rounds per tier (0 = scenario skipped in the free pass)
 	FreeQuick, FreeThorough int
-	Body                    func(e *Env)
+	// FreeOnly scenarios are not explored by the scheduler (use it when the code under test spawns
+	// goroutines in map-iteration order over ASYMMETRIC elements: thread identities would then differ
+	// between replays of the same schedule prefix and the explorer could not stay deterministic).
+	FreeOnly bool
+	Body     func(e *Env)
 }
 
 // IsFreePass reports whether the driver runs the free-running race pass.
@@ -119,11 +123,20 @@ func Run(r *vrt.R, scs []Scenario) {
 	if !IsFreePass() {
 		var ss []schedrun.Scenario
 		for _, s := range scs {
+			if s.FreeOnly {
+				continue
+			}
 			body := s.Body
 			ss = append(ss, schedrun.Scenario{Name: s.Name, Quick: s.Quick, Thorough: s.Thorough, MaxExec: s.MaxExec,
 				Body: func(x *sched.X) { body(&Env{X: x}) }})
 		}
-		schedrun.Run(r, ss)
+		if r.Replay() != nil {
+			schedrun.Run(r, ss)
+			return
+		}
+		for _, s := range ss {
+			runGuarded(r, s)
+		}
 		return
 	}
 	if r.Replay() != nil {
@@ -166,6 +179,25 @@ func Run(r *vrt.R, scs []Scenario) {
 	}
 	// the free pass is sampling: it never claims exhaustiveness of its own, the deciding pass does
 	r.Note("race pass is supplementary sampling; absence of reports is not a proof")
+}
+
+// runGuarded explores one scenario. If the explorer finds that the SAME schedule prefix led to a
+// different set of enabled threads on replay, the code under test is not a function of the schedule
+// (typically: it iterates a map that is concurrently modified, or spawns goroutines per element of a
+// live map, so Go's random iteration order decides what happens). That ends the scenario with a
+// violation under a stable key instead of killing the shard, and the other scenarios still run.
+func runGuarded(r *vrt.R, s schedrun.Scenario) {
+	defer func() {
+		if p := recover(); p != nil {
+			msg := fmt.Sprint(p)
+			if !strings.Contains(msg, "replay diverged") {
+				panic(p)
+			}
+			r.NotExhaustive(s.Name + ": exploration aborted, execution not determined by the schedule")
+			r.Violation(s.Name+"/schedule-independent-nondeterminism", "replaying an identical schedule prefix produced a different execution (different set of enabled threads): the code under test depends on something other than the schedule, e.g. on Go's random map iteration order while the map is being modified. "+msg, nil)
+		}
+	}()
+	schedrun.Run(r, []schedrun.Scenario{s})
 }
 
 func freeRound(r *vrt.R, s Scenario) (finished bool) {
